@@ -202,7 +202,35 @@ def run_encoding_table(ctx):
                 ctx.case(('encoding', mode, enc, text), True, f'process:encoding:{enc}:{r}')
 
 
+# Characters that some notion of "blank" covers and another does not (str.strip / str.isspace / the grammar's WS /
+# Unicode White_Space / invisible format characters), and the grammar's own blanks.
+EDGE_CHARS = (' ', '\t', '\n', '\r', '\f', '\x0b', '\x1c', '\x1d', '\x1e', '\x1f', '\x85', '\xa0', '\u1680', '\u2000', '\u2009',
+              '\u2028', '\u2029', '\u202f', '\u205f', '\u3000', '\ufeff', '\u200b', '\u00ad', '\x7f', '\x08')  # fmt: skip
+
+
 def gen_case(ch):
+    inp = _gen_case(ch)
+    if inp.get('text') is not None and inp['mode'] != 'missing-file' and not inp.get('raw_latin1') and ch.int(0, 4) == 0:
+        # one such character at the very end, at the very beginning, or in place of a space: what the command does with
+        # the text before parsing it (stripping, splitting into lines) must not change whether it parses
+        t = inp['text']
+        c = ch.pick(EDGE_CHARS)
+        if c == '\r' and inp['mode'] == 'file':
+            c = '\n'  # reading a text file turns a lone carriage return into a line feed: not the same text any more
+        where = ch.pick(['end', 'end', 'start', 'space'])
+        spaces = [i for i, x in enumerate(t) if x == ' ']
+        if where == 'end':
+            t = t + c
+        elif where == 'start' or not spaces:
+            t = c + t
+        else:
+            i = ch.pick(spaces)
+            t = t[:i] + c + t[i + 1 :]
+        inp = dict(inp, text=t, edge=f'{where}:U+{ord(c):04X}')
+    return inp
+
+
+def _gen_case(ch):
     mode = ch.pick(['property'] * 6 + ['file'] * 6 + ['missing-file', 'undecodable-file'])
     if mode == 'undecodable-file':
         where = ch.pick(['title', 'string', 'description', 'topic'])
